@@ -8,6 +8,7 @@ import (
 	cl "verif/gen/n0/client"
 	"verif/hapi"
 	"verif/vrt"
+	"verif/vrt/vnet"
 )
 
 func ckey(b byte) [16]byte { var k [16]byte; k[15] = b; return k }
@@ -294,6 +295,63 @@ func c19Plan(quick bool) *FuncPlan {
 			}
 			return insideOracle("prioritylock", 1, nil)(lg)
 		})})
+	// many goroutines share ONE client connection; their replies arrive in one burst (the server -> client
+	// direction is held back until all are answered): every caller must get the reply of its own request
+	for _, n := range []int{4, 9, 12, 20} {
+		n := n
+		scens = append(scens, &FuncScenario{Name: fmt.Sprintf("shared-connection-trylock-burst-%d", n), Bound: func(q bool) int { return 1 },
+			Desc: []string{fmt.Sprintf("%d goroutines share one client connection and try-lock (timeout 0) the same key; the replies are delivered to the client in one burst", n)},
+			Sc: c19Scenario(1, func(node hapi.Node, cs []*cl.Client, lg *c19Log, spawn func(string, func()), wait func()) {
+				var link *vnet.Link
+				for _, l := range vnet.Links() {
+					if l.ListenAddr == nodeAddr(0) {
+						link = l
+					}
+				}
+				if link == nil {
+					lg.add("!no-link")
+					return
+				}
+				link.BtoA.Hold = true
+				var held []*cl.Lock
+				for i := 0; i < n; i++ {
+					i := i
+					lk := cs[0].Lock(ckey(9), 0, 30)
+					spawn(fmt.Sprintf("p%d", i), func() {
+						if _, e := lk.Lock(); e != nil {
+							lg.add("x%d", i)
+							return
+						}
+						lg.add("+p%d", i)
+						held = append(held, lk)
+					})
+				}
+				spawn("release-burst", func() {
+					vrt.R.Block(func() bool { return link.BtoA.Pending() >= n*64 })
+					link.BtoA.Hold = false
+				})
+				wait()
+				ks := node.Snapshot().Key(0, ckey(9))
+				holders := 0
+				if ks != nil {
+					holders = len(ks.Holds)
+				}
+				lg.add("server-holders=%d", holders)
+				for _, lk := range held {
+					_, _ = lk.Unlock()
+				}
+			}, func(lg *c19Log) []explore.Violation {
+				s := strings.Join(lg.ev, " ")
+				if strings.Contains(s, "!") {
+					return []explore.Violation{{Sig: "C19:shared-connection-error", Msg: s}}
+				}
+				wins := strings.Count(s, "+p")
+				if wins != 1 || !strings.Contains(s, "server-holders=1") {
+					return []explore.Violation{{Sig: "C19:shared-connection-wrong-reply", Msg: fmt.Sprintf("%d goroutines sharing one connection try-locked one key: %d of them were told they hold it (the server has exactly one holder): %s", n, wins, s)}}
+				}
+				return nil
+			})})
+	}
 	// PriorityLock with three waiters, every arrival order: served by descending priority
 	for _, perm := range [][]uint8{{1, 2, 3}, {1, 3, 2}, {2, 1, 3}, {2, 3, 1}, {3, 1, 2}, {3, 2, 1}} {
 		perm := perm
